@@ -71,8 +71,9 @@ class Lemma:
             L = LEMMAS[ln]
             hyps.append(z3.substitute(L.body, *list(zip(L.vars, terms))))
         if self.cases:
+            ante = self.body.arg(0) if z3.is_implies(self.body) else z3.BoolVal(True)
             return [("%s/case%d" % (self.name, i), hyps + [c], self.body) for i, c in enumerate(self.cases)] + \
-                   [("%s/cases_exhaustive" % self.name, [], z3.Or(*self.cases))]
+                   [("%s/cases_exhaustive" % self.name, [ante], z3.Or(*self.cases))]
         return [(self.name + "/proof", hyps, self.body)]
 
 
@@ -93,7 +94,8 @@ class Contract:
     def __init__(self, key, params, returns=None, requires=(), ensures=(), raises=None, loops=None,
                  modifies=(), inline=(), witness=(), ghost=(), trusted=False, pure=False, note="",
                  raise_ensures=None, decreases=None, body=None, unroll=None, assume_valid=True,
-                 replay=None, props=(), lemmas=(), locals=None, hints=(), domains=None, gen=None, ghost_scope=None, no_runtime=False, bounded_only=False, depth=None, reveal=(), frame_only=False, param_values=None, modifies_ghost=()):
+                 replay=None, props=(), lemmas=(), locals=None, hints=(), domains=None, gen=None, ghost_scope=None, no_runtime=False, bounded_only=False, depth=None, reveal=(), frame_only=False, param_values=None, modifies_ghost=(), unfold_only=None):
+        self.unfold_only = None if unfold_only is None else list(unfold_only)   # whitelist of spec functions whose definitions are instantiated
         self.modifies_ghost = list(modifies_ghost)   # ghost variables the function may change (havoced at call sites)
         self.param_values = dict(param_values or {})   # parameters with a fixed (python-level) value, e.g. cls of a classmethod
         self.reveal = list(reveal)        # opaque spec functions whose definitions these VCs may unfold
